@@ -40,8 +40,8 @@ def make(rng):
         at = rng.choice([0, 1, 2, 3, nev_pre, nev_pre + 1, rng.randint(0, nev_pre + 4)])
         code = rng.choice([1000, 1001, 3000, 4999, None])
         reason = rng.choice([('b', b'bye'), ('b', b''), ('s', [0x62, 0x20ac]), ('b', b'r' * 123)])
-        if code is None:
-            reason = ('b', b'')
+        if code is None and rng.random() < 0.5:
+            reason = ('b', b'')         # (with no code there is no payload at all, whatever the reason argument is: RFC 6455 5.5.1)
         rx[at] = [('close', code, reason)]
         app_close = (at, code, reason)
     for i in range(0, nev_pre + 10):
